@@ -22,6 +22,8 @@ from .env import HarnessError
 
 NSHARDS = int(os.environ.get("VERIF_SHARDS", "16"))
 KNOWN_FILE = os.path.join(env.VERIF, "known_findings.json")
+# where evidence/ and replays/ are written (self-tests on mutated copies redirect this)
+OUT = os.environ.get("VERIF_OUT", env.VERIF)
 
 
 class Violation(Exception):
@@ -287,13 +289,13 @@ def worker(args):
 
 
 def write_replay(prop, fail):
-    os.makedirs(os.path.join(env.VERIF, "replays"), exist_ok=True)
+    os.makedirs(os.path.join(OUT, "replays"), exist_ok=True)
     blob = json.dumps(fail, sort_keys=True, indent=1)
     h = hashlib.sha1(blob.encode()).hexdigest()[:10]
     rel = os.path.join("replays", "%s-%s-%s.json" % (prop, fail["subcheck"], h))
-    with open(os.path.join(env.VERIF, rel), "w") as f:
+    with open(os.path.join(OUT, rel), "w") as f:
         f.write(blob)
-    return rel
+    return rel if OUT == env.VERIF else os.path.join(OUT, rel)
 
 
 def replay(prop, path):
@@ -435,8 +437,8 @@ def main(argv=None):
         "violations": len(fails),
         "known_findings_reproduced": known_hits,
     }
-    os.makedirs(os.path.join(env.VERIF, "evidence"), exist_ok=True)
-    with open(os.path.join(env.VERIF, "evidence", "%s.json" % prop), "w") as f:
+    os.makedirs(os.path.join(OUT, "evidence"), exist_ok=True)
+    with open(os.path.join(OUT, "evidence", "%s.json" % prop), "w") as f:
         json.dump(evidence, f, indent=1, sort_keys=True)
 
     for name, m in sorted(sub.items()):
